@@ -31,6 +31,23 @@ def fullTlist (tol : Rat) (grids : List (List Rat)) : Option (List Rat) :=
   | [] => some []
   | a :: rest => some (a :: keepFrom tol a rest)
 
+/-! ### the de-duplication with the reference point of the working tree (fixes/C14-8.patch)
+
+`kk = false`: the code as found, `full[1:][np.diff(full) > tol]` — a point is dropped when it is within `tol` of its PREDECESSOR
+in the sorted list, kept or not (a chain p, p + 0.7 tol, p + 1.4 tol loses both later points).  `kk = true`: the repaired loop —
+a point is dropped when it is within `tol` of the last point that is KEPT. -/
+
+def keepFromK (kk : Bool) (tol : Rat) : Rat → List Rat → List Rat
+  | _, [] => []
+  | prev, b :: rest =>
+    if b - prev > tol then b :: keepFromK kk tol b rest else keepFromK kk tol (if kk then prev else b) rest
+
+def fullTlistK (kk : Bool) (tol : Rat) (grids : List (List Rat)) : Option (List Rat) :=
+  if grids.isEmpty then none else
+  match sortU grids.flatten with
+  | [] => some []
+  | a :: rest => some (a :: keepFromK kk tol a rest)
+
 /-! ## `_fill_coeff`, step branch -/
 
 inductive Err
@@ -214,6 +231,21 @@ def fullCoeffsW (w : Bool) (tol : Rat) (chans : List Chan) : Except Err (List Ra
 
 def fullCoeffsVW (zeroLast w : Bool) (tol : Rat) (chans : List Chan) : Except Err (List Rat × List (List Rat)) :=
   fullCoeffsW w tol (chans.map (Chan.norm zeroLast))
+
+/-- `get_full_coeffs()` with all variants of the working tree: padding (`zeroLast`, C14-2), advance step of `_fill_coeff` (`w`,
+C14-7), reference point of the de-duplication in `get_full_tlist` (`kk`, C14-8) -/
+def fullCoeffsVWK (zeroLast w kk : Bool) (tol : Rat) (chans : List Chan) : Except Err (List Rat × List (List Rat)) :=
+  let chans := chans.map (Chan.norm zeroLast)
+  if !valid chans then .error .shape else
+  match fullTlistK kk tol (chans.filterMap Chan.grid?) with
+  | none => .error .type
+  | some T =>
+    match mapMExcept (fun
+        | .absent => .ok (T.map fun _ => (0 : Rat))
+        | .const b _ => .ok (T.map fun _ => if b then (1 : Rat) else 0)
+        | .arr tl cs => fillW w tol tl cs T) chans with
+    | .error e => .error e
+    | .ok rows => .ok (T, rows)
 
 /-- `run_analytically`: slice `n` has `dt = T[n+1] - T[n]` and the coefficient column `n` -/
 def slices : List Rat → List (List Rat) → List (Rat × List Rat)
